@@ -1,7 +1,8 @@
 //! One bundle of statistics evaluated on the same logical arrays under every ownership kind and
 //! static / dynamic dimensionality.
 use crate::common::*;
-use ndarray::{ArrayBase, Axis, CowArray, Data, Dimension, Ix1, Ix2, Ix3, Ix4, RemoveAxis};
+use ndarray::{Array1, ArrayBase, ArrayD, Axis, CowArray, Data, Dimension, Ix1, Ix2, Ix3, Ix4, RemoveAxis};
+use ndarray_stats::histogram::Edges;
 use ndarray_stats::interpolate::{Higher, Linear};
 use ndarray_stats::{DeviationExt, EntropyExt, MaybeNanExt, QuantileExt, SummaryStatisticsExt};
 use noisy_float::types::n64;
@@ -68,6 +69,18 @@ where
     out.join(";")
 }
 
+/// the first 1-D lane (index 0 on every leading axis) of an owned array, still owning the allocation
+fn first_lane(mut o: ArrayD<i64>) -> Array1<i64> {
+    while o.ndim() > 1 {
+        o = o.index_axis_move(Axis(0), 0);
+    }
+    o.into_dimensionality::<Ix1>().unwrap()
+}
+
+fn show_edges(e: &Edges<i64>) -> String {
+    format!("{:?}", e.as_array_view().iter().cloned().collect::<Vec<i64>>()).replace(' ', "")
+}
+
 macro_rules! variants {
     ($bundle:ident, $a:expr, $b:expr, $nd:expr) => {{
         let mut res: Vec<String> = Vec::new();
@@ -103,7 +116,8 @@ pub fn run(_routine: &str, t: &mut Toks) -> String {
             t.bar();
             let b: Parent<f64> = Parent::parse(t);
             let nd = a.layout.pshape.len();
-            let r = variants!(bundle_f64, a, b, nd);
+            let mut r = variants!(bundle_f64, a, b, nd);
+            r.push(format!("narrow|{}", bundle_f64(&a.owned_sliced(), &b.owned_sliced())));
             format!("OK {} # {}", r.len(), r.join(" # "))
         }
         "i64" => {
@@ -111,7 +125,18 @@ pub fn run(_routine: &str, t: &mut Toks) -> String {
             t.bar();
             let b: Parent<i64> = Parent::parse(t);
             let nd = a.layout.pshape.len();
-            let r = variants!(bundle_i64, a, b, nd);
+            let mut r = variants!(bundle_i64, a, b, nd);
+            // an owned array narrowed inside its parent allocation (slice_move semantics), and the
+            // edges built from the first lane through three routes: a Vec, a compact owned Array1,
+            // the narrowed owned Array1
+            let (oa, ob) = (a.owned_sliced(), b.owned_sliced());
+            let lane: Vec<i64> = first_lane(oa.clone()).iter().cloned().collect();
+            let e_vec = show_edges(&Edges::from(lane.clone()));
+            let e_compact = show_edges(&Edges::from(Array1::from(lane)));
+            let e_narrow = show_edges(&Edges::from(first_lane(oa.clone())));
+            r[0].push_str(&format!(";edges {}", e_vec));
+            r[1].push_str(&format!(";edges {}", e_compact));
+            r.push(format!("narrow|{};edges {}", bundle_i64(&oa, &ob), e_narrow));
             format!("OK {} # {}", r.len(), r.join(" # "))
         }
         _ => panic!("unsupported element type"),
